@@ -67,6 +67,9 @@ func runC09(c *Ctx) Info {
 	}
 	c.C.Floor("PROGRESS", nLoops-c.controlCount("PROGRESS"), 250)
 	c.C.ExpectControl("PROGRESS")
+	nAlloc := c.allocRule(eng, funcs)
+	c.C.Floor("ALLOC-READBUF", nAlloc-c.controlCount("ALLOC-READBUF"), 3)
+	c.C.ExpectControl("ALLOC-READBUF")
 	if c.Dump == "advance" {
 		var ks []string
 		for fn, a := range adv.sum {
